@@ -845,7 +845,9 @@ def _cfg_plain(cfg):
     try:
         from omegaconf import DictConfig, OmegaConf
 
-        if isinstance(cfg, DictConfig):
+        from omegaconf import ListConfig
+
+        if isinstance(cfg, (DictConfig, ListConfig)):
             return OmegaConf.to_container(cfg, resolve=True)
     except Exception:
         pass
